@@ -204,6 +204,23 @@ def h_network_span(ctx, ts_flags, units):
     if hi < lo:
         want = want + (G[-1] - G[0])
     ctx.eq('network E_span = highest - lowest (+ overall dG when highest precedes lowest)', got, want)
+    # a second query on the same network at another pressure is evaluated at that pressure (single-step paths only:
+    # the arg-min / arg-max forks of two queries multiply)
+    if len(ts_flags) > 1:
+        return
+    P2 = ctx.real('P_second_query', 1e-4, 1e3)
+    G2 = []
+    for i, ts in enumerate(ts_flags):
+        if i == 0:
+            G2.append(ref_val(sp[0], 'GoRT', T, P2) * RT)
+        if ts:
+            G2.append(ref_val(rx[i].transition_state[0], 'GoRT', T, P2) * RT)
+        G2.append(ref_val(sp[i + 1], 'GoRT', T, P2) * RT)
+    hi2, lo2 = _first_extreme(G2, True), _first_extreme(G2, False)
+    want2 = G2[hi2] - G2[lo2]
+    if hi2 < lo2:
+        want2 = want2 + (G2[-1] - G2[0])
+    ctx.eq('network E_span, second query at another pressure', net.get_E_span(path=path, units=units, T=T, P=P2), want2)
 
 
 def groups(tier):
